@@ -5,6 +5,7 @@ package main
 import (
 	"encoding/hex"
 	"fmt"
+	"math"
 	"math/big"
 	"math/bits"
 	"math/rand"
@@ -25,7 +26,7 @@ import (
 
 var provMu sync.Mutex
 
-var statTies, statOrderCmp, statSets int // evidence counters (oracle runs single-threaded)
+var statTies, statOrderCmp, statSets, statBig, statShared int // evidence counters (oracle runs single-threaded)
 
 func init() {
 	logging.Logger = zap.NewNop()
@@ -34,8 +35,20 @@ func init() {
 }
 
 type world struct {
-	c    *chain.Chain
-	pool *node.Pool
+	c     *chain.Chain
+	pool  *node.Pool           // pool 0: the magic block's sharders
+	pools map[int64]*node.Pool // side pools 1..7 (other sharder pools that may hold the same node objects)
+	objs  map[int64]*node.Node // node objects made by `obj`
+}
+
+func (w *world) poolN(p int64) *node.Pool {
+	if p == 0 {
+		return w.pool
+	}
+	if w.pools[p] == nil {
+		w.pools[p] = node.NewPool(node.NodeTypeSharder)
+	}
+	return w.pools[p]
 }
 
 var chainPool = sync.Pool{New: func() interface{} {
@@ -53,7 +66,7 @@ func newWorld(nrepl int) *world {
 	mb.Miners = node.NewPool(node.NodeTypeMiner)
 	mb.Sharders = node.NewPool(node.NodeTypeSharder)
 	c.SetMagicBlock(mb)
-	return &world{c: c, pool: mb.Sharders}
+	return &world{c: c, pool: mb.Sharders, pools: map[int64]*node.Pool{}, objs: map[int64]*node.Node{}}
 }
 
 func isID(s string) bool {
@@ -89,10 +102,24 @@ func parseInt(s string) (int64, bool) {
 	return v, true
 }
 
+// id32: the top 32 bits of a node id (how the answers name a node).
+func id32(id string) string {
+	v, _ := strconv.ParseUint(id[:8], 16, 64)
+	return strconv.FormatUint(v, 10)
+}
+
 func showNodes(ok bool, nodes []*node.Node) string {
 	parts := []string{strconv.FormatBool(ok)}
 	for _, n := range nodes {
-		parts = append(parts, strconv.Itoa(n.SetIndex))
+		parts = append(parts, fmt.Sprintf("%s:%d", id32(n.GetKey()), n.SetIndex))
+	}
+	return strings.Join(parts, " ")
+}
+
+func showPos(p *node.Pool) string {
+	parts := []string{"pos"}
+	for _, nd := range p.CopyNodes() {
+		parts = append(parts, fmt.Sprintf("%s:%d", dec(nd.GetKey()), nd.SetIndex))
 	}
 	return strings.Join(parts, " ")
 }
@@ -123,7 +150,7 @@ func impl(ops []string) []string {
 			switch {
 			case f[0] == "new" && len(f) == 2:
 				n, ok := parseInt(f[1])
-				if !ok || n != int64(int32(n)) {
+				if !ok || n != int64(int(n)) {
 					return
 				}
 				chainPool.Put(w.c)
@@ -143,16 +170,41 @@ func impl(ops []string) []string {
 					return
 				}
 				outs[i] = "ok"
-			case f[0] == "pos" && len(f) == 1:
-				parts := []string{"pos"}
-				for _, nd := range w.pool.CopyNodes() {
-					parts = append(parts, fmt.Sprintf("%s:%d", dec(nd.GetKey()), nd.SetIndex))
+			case f[0] == "obj" && len(f) == 4:
+				o, ok := parseInt(f[1])
+				if !ok || o < 0 || o >= 1000000 || strings.HasPrefix(f[1], "-") || !isID(f[2]) || w.objs[o] != nil {
+					return
 				}
-				outs[i] = strings.Join(parts, " ")
+				pkb, err := hex.DecodeString(f[3])
+				if err != nil || encryption.Hash(pkb) != f[2] {
+					outs[i] = "harness-bad-pk"
+					return
+				}
+				w.objs[o] = mkNode(f[2], f[3])
+				outs[i] = "ok"
+			case f[0] == "padd" && len(f) == 3:
+				p, ok1 := parseInt(f[1])
+				o, ok2 := parseInt(f[2])
+				if !ok1 || !ok2 || p < 0 || p >= 8 || strings.HasPrefix(f[1], "-") || strings.HasPrefix(f[2], "-") || w.objs[o] == nil {
+					return
+				}
+				if err := w.poolN(p).AddNode(w.objs[o]); err != nil {
+					outs[i] = "error"
+					return
+				}
+				outs[i] = "ok"
+			case f[0] == "pos" && len(f) == 1:
+				outs[i] = showPos(w.pool)
+			case f[0] == "ppos" && len(f) == 2:
+				p, ok := parseInt(f[1])
+				if !ok || p < 0 || p >= 8 || strings.HasPrefix(f[1], "-") {
+					return
+				}
+				outs[i] = showPos(w.poolN(p))
 			case f[0] == "scores" && len(f) == 2:
 				parts := []string{"scores"}
 				for _, s := range scorer.ScoreHashString(w.pool, f[1]) {
-					parts = append(parts, fmt.Sprintf("%d:%d", s.Node.SetIndex, s.Score))
+					parts = append(parts, fmt.Sprintf("%s:%d:%d", id32(s.Node.GetKey()), s.Node.SetIndex, s.Score))
 				}
 				outs[i] = strings.Join(parts, " ")
 			case f[0] == "isbs" && len(f) == 3:
@@ -230,37 +282,47 @@ func tieHash(r *rand.Rand, a, b string) string {
 	return hex.EncodeToString(h)
 }
 
-// gen: one sharder set, added in two different orders (two `new` segments, the same queries in each), queries for
-// every node and for an outsider; replicator counts around 0, the pool size and beyond; hashes: random, tie-forcing,
-// too short (panic), too long, not hex.
-func gen(r *rand.Rand, thorough bool, i int) []string {
-	maxN := 9
-	if thorough {
-		maxN = 24
+// queriesFor: the same queries for every segment of a case.
+func queriesFor(r *rand.Rand, ids []ident, outsider ident, hashes []string, few bool) []string {
+	size := len(ids)
+	queries := []string{"pos"}
+	for _, h := range hashes {
+		queries = append(queries, "scores "+h)
+		for _, id := range ids {
+			if few {
+				if r.Intn(size) < 4 {
+					queries = append(queries, fmt.Sprintf("isbs %s %s", h, id.id))
+				}
+			} else if r.Intn(3) != 0 || size <= 4 {
+				queries = append(queries, fmt.Sprintf("isbs %s %s", h, id.id))
+			}
+		}
+		queries = append(queries, fmt.Sprintf("isbs %s %s", h, outsider.id))
+		who := outsider
+		if size > 0 && r.Intn(3) != 0 {
+			who = ids[r.Intn(size)]
+		}
+		queries = append(queries, fmt.Sprintf("repl %s %s", h, who.id))
+		if r.Intn(3) == 0 {
+			n := int64(r.Intn(size+3) - 1)
+			if r.Intn(6) == 0 {
+				n = []int64{math.MinInt64, math.MinInt64 + 1, -1, 0, 1, math.MaxInt64 - 1, math.MaxInt64}[r.Intn(7)]
+			}
+			queries = append(queries, fmt.Sprintf("intop %s %s %d", h, who.id, n), fmt.Sprintf("intopn %s %s %d", h, who.id, n))
+		}
 	}
-	size := r.Intn(maxN)
-	ids := make([]ident, size)
-	for k := range ids {
-		ids[k] = mkIdent(r)
-	}
-	outsider := mkIdent(r)
-	var nrepl int
-	switch r.Intn(8) {
-	case 0:
-		nrepl = -r.Intn(3)
-	case 1:
-		nrepl = size
-	case 2:
-		nrepl = size + 1 + r.Intn(2)
-	case 3:
-		nrepl = 1
-	default:
-		nrepl = 1 + r.Intn(size+1)
-	}
+	return queries
+}
+
+func genHashes(r *rand.Rand, ids []ident, nh int, wellFormedOnly bool) []string {
+	size := len(ids)
 	var hashes []string
-	nh := 1 + r.Intn(3)
 	for k := 0; k < nh; k++ {
-		switch x := r.Intn(12); {
+		x := r.Intn(12)
+		if wellFormedOnly && (x == 5 || x == 7) {
+			x = 11
+		}
+		switch {
 		case x < 5 && size >= 2:
 			a, b := r.Intn(size), r.Intn(size)
 			hashes = append(hashes, tieHash(r, ids[a].id, ids[b].id))
@@ -285,42 +347,127 @@ func gen(r *rand.Rand, thorough bool, i int) []string {
 			hashes = append(hashes, hex.EncodeToString(b))
 		}
 	}
-	var queries []string
-	queries = append(queries, "pos")
-	for _, h := range hashes {
-		queries = append(queries, "scores "+h)
-		for _, id := range ids {
-			if r.Intn(3) != 0 || size <= 4 {
-				queries = append(queries, fmt.Sprintf("isbs %s %s", h, id.id))
-			}
-		}
-		queries = append(queries, fmt.Sprintf("isbs %s %s", h, outsider.id))
-		who := outsider
-		if size > 0 && r.Intn(3) != 0 {
-			who = ids[r.Intn(size)]
-		}
-		queries = append(queries, fmt.Sprintf("repl %s %s", h, who.id))
-		if r.Intn(3) == 0 {
-			n := r.Intn(size+3) - 1
-			queries = append(queries, fmt.Sprintf("intop %s %s %d", h, who.id, n), fmt.Sprintf("intopn %s %s %d", h, who.id, n))
+	return hashes
+}
+
+// gen: three kinds of cases.
+//   - small: one sharder set added in two different orders (two `new` segments, the same queries in each), queries for
+//     every node and an outsider; replicator counts around 0, the pool size, beyond, and int64 extremes; hashes:
+//     random, tie-forcing, too short (panic), too long, not hex.
+//   - shared: node OBJECTS shared between pools — sharders put into pool 0 as objects, some of the same objects put into
+//     side pools of another composition (which renumbers their SetIndex), then re-added to pool 0 as NEW objects with the
+//     same key (the documented replace path); compared with a freshly built pool of the same members.
+//   - big: pools beyond 256 members (257, 300, 513, ~1000): an index packed into 8 (or 9) bits overflows.
+func gen(r *rand.Rand, thorough bool, i int) []string {
+	kind := "small"
+	switch {
+	case i%5 == 1:
+		kind = "shared"
+	case (!thorough && i%40 == 7) || (thorough && i%60 == 7):
+		kind = "big"
+	}
+	maxN := 9
+	if thorough {
+		maxN = 24
+	}
+	size := r.Intn(maxN)
+	if kind == "shared" {
+		size = 2 + r.Intn(maxN)
+	}
+	if kind == "big" {
+		size = []int{257, 258, 300, 513}[r.Intn(4)]
+		if thorough && r.Intn(3) == 0 {
+			size = 1000 + r.Intn(50)
 		}
 	}
+	ids := make([]ident, size)
+	for k := range ids {
+		ids[k] = mkIdent(r)
+	}
+	outsider := mkIdent(r)
+	var nrepl int64
+	switch r.Intn(9) {
+	case 0:
+		nrepl = int64(-r.Intn(3))
+	case 1:
+		nrepl = int64(size)
+	case 2:
+		nrepl = int64(size + 1 + r.Intn(2))
+	case 3:
+		nrepl = 1
+	case 4:
+		if r.Intn(2) == 0 {
+			nrepl = []int64{math.MinInt64, math.MinInt64 + 1, math.MaxInt64 - 1, math.MaxInt64}[r.Intn(4)]
+		} else {
+			nrepl = int64(1 + r.Intn(size+1))
+		}
+	default:
+		nrepl = int64(1 + r.Intn(size+1))
+	}
+	if kind == "big" {
+		nrepl = int64(1 + r.Intn(40))
+	}
+	nh := 1 + r.Intn(3)
+	if kind == "big" {
+		nh = 3
+	}
+	hashes := genHashes(r, ids, nh, kind == "big")
+	queries := queriesFor(r, ids, outsider, hashes, kind == "big")
 	if r.Intn(15) == 0 {
-		queries = append(queries, []string{"add zz 00", "isbs 00", "new", "new x", "repl 00 1234", "frob", "intop 00 " + outsider.id + " x"}[r.Intn(7)])
+		queries = append(queries, []string{"add zz 00", "isbs 00", "new", "new x", "repl 00 1234", "frob", "intop 00 " + outsider.id + " x", "padd 9 1", "obj 1", "padd 0 999", "ppos 8"}[r.Intn(11)])
 	}
 	var ops []string
+	if kind == "shared" {
+		// segment 1: objects 1..size into pool 0; a subset into side pools; re-adds as new objects
+		ops = append(ops, fmt.Sprintf("new %d", nrepl))
+		for k, id := range ids {
+			ops = append(ops, fmt.Sprintf("obj %d %s %s", k+1, id.id, id.pk))
+		}
+		for _, k := range r.Perm(size) {
+			ops = append(ops, fmt.Sprintf("padd 0 %d", k+1))
+		}
+		next := size + 1
+		rounds := 1 + r.Intn(3)
+		for t := 0; t < rounds; t++ {
+			p := 1 + r.Intn(3)
+			sub := r.Perm(size)[:1+r.Intn(size)]
+			for _, k := range sub {
+				ops = append(ops, fmt.Sprintf("padd %d %d", p, k+1))
+			}
+			if r.Intn(2) == 0 {
+				ops = append(ops, fmt.Sprintf("ppos %d", p), "pos", "scores "+hashes[0])
+			}
+			// re-register some of them in pool 0 as new objects with the same key
+			for _, k := range sub[:1+r.Intn(len(sub))] {
+				ops = append(ops, fmt.Sprintf("obj %d %s %s", next, ids[k].id, ids[k].pk), fmt.Sprintf("padd 0 %d", next))
+				next++
+				if r.Intn(3) == 0 {
+					ops = append(ops, "pos")
+				}
+			}
+		}
+		ops = append(ops, queries...)
+		// segment 2: the same members, built freshly
+		ops = append(ops, fmt.Sprintf("new %d", nrepl))
+		for _, k := range r.Perm(size) {
+			ops = append(ops, fmt.Sprintf("add %s %s", ids[k].id, ids[k].pk))
+		}
+		ops = append(ops, queries...)
+		return ops
+	}
 	segments := 2
+	if kind == "big" {
+		segments = 1
+	}
 	for s := 0; s < segments; s++ {
 		ops = append(ops, fmt.Sprintf("new %d", nrepl))
 		perm := r.Perm(size)
 		for _, k := range perm {
 			ops = append(ops, fmt.Sprintf("add %s %s", ids[k].id, ids[k].pk))
-			if r.Intn(6) == 0 { // re-adding a node (replaces the object, same position)
-				j := perm[r.Intn(len(perm))]
-				_ = j
+			if r.Intn(6) == 0 && kind != "big" { // re-adding a node (replaces the object, same position)
 				ops = append(ops, fmt.Sprintf("add %s %s", ids[k].id, ids[k].pk))
 			}
-			if s == 0 && r.Intn(8) == 0 {
+			if s == 0 && r.Intn(8) == 0 && kind != "big" {
 				ops = append(ops, "pos")
 			}
 		}
@@ -339,27 +486,47 @@ func popScore(id, h []byte) int {
 	return s
 }
 
-// oracle: the property on the implementation's answers.
+// setOf: an answer without what legitimately depends on the history of OTHER pools (the SetIndex of shared node objects
+// and, through it, the order among equal scores): the flag and the sorted node ids.
+func setOf(ans string) string {
+	g := strings.Fields(ans)
+	if len(g) == 0 || (g[0] != "true" && g[0] != "false") {
+		return ans
+	}
+	var ids []string
+	for _, x := range g[1:] {
+		ids = append(ids, strings.SplitN(x, ":", 2)[0])
+	}
+	sort.Strings(ids)
+	return g[0] + " " + strings.Join(ids, " ")
+}
+
+// oracle: the property on the implementation's answers. The members of pool 0 are the ids added to it (by `add` or
+// `padd 0`), whatever the history — other pools, shared objects, re-adds.
 //
-//	(determinism / order independence) two segments of a case with the same sharder set and replicator count answer
-//	   every identical query identically;
-//	(positions) `pos` lists the ids ascending with SetIndex = position;
-//	(the set) for a well-formed hash (>= 32 bytes) and n > 0, n <= #sharders: the nodes of `repl` are exactly the sharders x
-//	   with fewer than n sharders scoring strictly higher than x — hence at least n of them, ties at the cut-off included;
-//	   `isbs` of a sharder is membership in that set, of an outsider false;
+//	(determinism / order and history independence) two segments of a case with the same members and replicator count give
+//	   the same yes/no answers and the same replicator SETS for identical queries;
+//	(positions) `pos` lists the ids ascending; right after an AddNode to pool 0 every SetIndex is the position;
+//	(scores) the output of ScoreHash is ordered by score descending, equal scores by SetIndex descending, one entry per member,
+//	   each with the XOR-popcount score;
+//	(the set) for a well-formed hash (>= 32 bytes) and 0 < n <= #sharders: the nodes of `repl` are exactly the sharders x
+//	   with fewer than n sharders scoring strictly higher than x — hence at least n distinct ones, ties at the cut-off
+//	   included; `isbs` of a sharder is membership in that set, of an outsider false;
 //	(disabled) n <= 0: every `isbs` is true and `repl` lists all sharders.
 func oracle(ops, outs []string) *corr.Violation {
 	mk := func(sig, msg string) *corr.Violation {
 		return &corr.Violation{Signature: "C42:" + sig, Message: msg, Ops: ops, Impl: outs}
 	}
 	type seg struct {
-		nrepl   int64
-		ids     map[string]bool
-		answers map[string]string
-		frozen  bool
+		nrepl    int64
+		ids      map[string]bool
+		answers  map[string]string
+		side     bool // node objects were (also) put into other pools: SetIndex may be another pool's
+		posFresh bool // the last AddNode was to pool 0
 	}
 	var segs []*seg
 	var cur *seg
+	objID := map[string]string{}
 	for i, op := range ops {
 		f := strings.Fields(op)
 		if len(f) == 0 || outs[i] == "bad-op" {
@@ -369,17 +536,38 @@ func oracle(ops, outs []string) *corr.Violation {
 			n, _ := strconv.ParseInt(f[1], 10, 64)
 			cur = &seg{nrepl: n, ids: map[string]bool{}, answers: map[string]string{}}
 			segs = append(segs, cur)
+			objID = map[string]string{}
 			continue
 		}
 		if cur == nil {
 			continue
 		}
-		if f[0] == "add" {
+		switch f[0] {
+		case "add":
 			if outs[i] != "ok" {
 				return mk("add-rejected", fmt.Sprintf("op %d %q answered %q", i, op, outs[i]))
 			}
 			cur.ids[f[1]] = true
-			cur.answers = map[string]string{} // answers are recorded for the final set only
+			cur.posFresh = true
+			cur.answers = map[string]string{} // answers are recorded for the final member set only
+			continue
+		case "obj":
+			objID[f[1]] = f[2]
+			continue
+		case "padd":
+			if outs[i] != "ok" {
+				return mk("add-rejected", fmt.Sprintf("op %d %q answered %q", i, op, outs[i]))
+			}
+			if f[1] == "0" {
+				cur.ids[objID[f[2]]] = true
+				cur.posFresh = true
+				cur.answers = map[string]string{}
+			} else {
+				cur.side = true
+				cur.posFresh = false
+			}
+			continue
+		case "ppos":
 			continue
 		}
 		cur.answers[op] = outs[i]
@@ -389,17 +577,56 @@ func oracle(ops, outs []string) *corr.Violation {
 		}
 		sort.Strings(sorted)
 		idx := map[string]int{}
+		by32 := map[string]int{}
 		for k, id := range sorted {
 			idx[id] = k
+			by32[id32(id)] = k
 		}
 		switch f[0] {
 		case "pos":
-			parts := []string{"pos"}
-			for k, id := range sorted {
-				parts = append(parts, fmt.Sprintf("%s:%d", dec(id), k))
+			g := strings.Fields(outs[i])
+			okp := len(g) == len(sorted)+1
+			for k := 0; okp && k < len(sorted); k++ {
+				p := strings.SplitN(g[k+1], ":", 2)
+				okp = len(p) == 2 && p[0] == dec(sorted[k]) && (!cur.posFresh || p[1] == strconv.Itoa(k))
 			}
-			if want := strings.Join(parts, " "); outs[i] != want {
-				return mk("positions", fmt.Sprintf("op %d: positions %q, ids ascending with SetIndex=position are %q", i, outs[i], want))
+			if !okp {
+				return mk("positions", fmt.Sprintf("op %d: positions %.300q: the %d member ids ascending (SetIndex = position after an AddNode to this pool: %v) are expected", i, outs[i], len(sorted), cur.posFresh))
+			}
+		case "scores":
+			hb, err := hex.DecodeString(f[1])
+			if err != nil || len(hb) < 32 {
+				continue
+			}
+			g := strings.Fields(outs[i])
+			if len(g) == 0 || g[0] != "scores" {
+				return mk("scores-answer", fmt.Sprintf("op %d %.80q answered %.200q", i, op, outs[i]))
+			}
+			if len(g)-1 != len(sorted) {
+				return mk("scores-not-one-per-member", fmt.Sprintf("op %d: %d scored entries for %d members", i, len(g)-1, len(sorted)))
+			}
+			seen := map[int]bool{}
+			ps, pi := 0, 0
+			for k, e := range g[1:] {
+				p := strings.Split(e, ":")
+				if len(p) != 3 {
+					return mk("scores-answer", fmt.Sprintf("op %d entry %q", i, e))
+				}
+				m, member := by32[p[0]]
+				si, _ := strconv.Atoi(p[1])
+				sc, _ := strconv.Atoi(p[2])
+				if !member || seen[m] {
+					return mk("scores-not-one-per-member", fmt.Sprintf("op %d: entry %q is not a member or appears twice", i, e))
+				}
+				seen[m] = true
+				b, _ := hex.DecodeString(sorted[m])
+				if sc != popScore(b, hb) {
+					return mk("score-value", fmt.Sprintf("op %d: entry %q, XOR popcount is %d", i, e, popScore(b, hb)))
+				}
+				if k > 0 && (sc > ps || (sc == ps && si > pi)) {
+					return mk("scores-not-sorted", fmt.Sprintf("op %d: ScoreHash output is not ordered by (score desc, SetIndex desc): entry %d %q follows (score %d, index %d)", i, k, e, ps, pi))
+				}
+				ps, pi = sc, si
 			}
 		case "isbs", "repl":
 			hb, err := hex.DecodeString(f[1])
@@ -409,17 +636,18 @@ func oracle(ops, outs []string) *corr.Violation {
 					return mk("disabled-not-all", fmt.Sprintf("op %d %q answered %q with replication disabled (n=%d)", i, op, outs[i], n))
 				}
 				if f[0] == "repl" {
-					parts := []string{"true"}
-					for k := range sorted {
-						parts = append(parts, strconv.Itoa(k))
+					var want []string
+					for _, id := range sorted {
+						want = append(want, id32(id))
 					}
-					if want := strings.Join(parts, " "); outs[i] != want {
-						return mk("disabled-not-all", fmt.Sprintf("op %d %q answered %q, replication disabled (n=%d): want %q", i, op, outs[i], n, want))
+					sort.Strings(want)
+					if w := strings.TrimSpace("true " + strings.Join(want, " ")); setOf(outs[i]) != w {
+						return mk("disabled-not-all", fmt.Sprintf("op %d %.80q answered %.200q, replication disabled (n=%d): all %d sharders expected", i, op, outs[i], n, len(sorted)))
 					}
 				}
 				continue
 			}
-			if err != nil || len(hb) < 32 || int(n) > len(sorted) {
+			if err != nil || len(hb) < 32 || n > int64(len(sorted)) {
 				continue // not a block hash / not enough sharders: the property does not speak
 			}
 			score := make([]int, len(sorted))
@@ -427,15 +655,12 @@ func oracle(ops, outs []string) *corr.Violation {
 				b, _ := hex.DecodeString(id)
 				score[k] = popScore(b, hb)
 			}
+			byScore := append([]int(nil), score...)
+			sort.Sort(sort.Reverse(sort.IntSlice(byScore)))
+			cut := byScore[n-1] // x is in the top iff fewer than n score strictly higher iff score(x) >= n-th highest score
 			inTop := map[int]bool{}
 			for k := range sorted {
-				higher := 0
-				for j := range sorted {
-					if score[j] > score[k] {
-						higher++
-					}
-				}
-				if higher < int(n) {
+				if score[k] >= cut {
 					inTop[k] = true
 				}
 			}
@@ -443,40 +668,46 @@ func oracle(ops, outs []string) *corr.Violation {
 			want := member && inTop[k]
 			if f[0] == "isbs" {
 				if outs[i] != strconv.FormatBool(want) {
-					return mk("set-not-top", fmt.Sprintf("op %d %q answered %q; scores %v, n=%d: node index %d (member=%v) in top: %v", i, op, outs[i], score, n, k, member, want))
+					return mk("set-not-top", fmt.Sprintf("op %d %.100q answered %q; %d members, n=%d, cut-off score %d: node index %d (member=%v, score %d) in top: %v", i, op, outs[i], len(sorted), n, cut, k, member, score[k], want))
 				}
 				continue
 			}
 			g := strings.Fields(outs[i])
 			if len(g) == 0 || (g[0] != "true" && g[0] != "false") {
-				return mk("repl-answer", fmt.Sprintf("op %d %q answered %q", i, op, outs[i]))
+				return mk("repl-answer", fmt.Sprintf("op %d %.100q answered %.100q", i, op, outs[i]))
 			}
 			got := map[int]bool{}
 			for _, x := range g[1:] {
-				v, _ := strconv.Atoi(x)
-				if got[v] {
-					return mk("repl-duplicate", fmt.Sprintf("op %d %q lists node %d twice: %q", i, op, v, outs[i]))
+				m, ok := by32[strings.SplitN(x, ":", 2)[0]]
+				if !ok {
+					return mk("repl-not-a-member", fmt.Sprintf("op %d %.100q lists %q, which is not a member", i, op, x))
 				}
-				got[v] = true
+				if got[m] {
+					return mk("repl-duplicate", fmt.Sprintf("op %d %.100q lists member %d twice", i, op, m))
+				}
+				got[m] = true
 			}
 			statSets++
 			if len(got) > int(n) {
 				statTies++
 			}
+			if len(sorted) > 256 {
+				statBig++
+			}
 			if len(got) < int(n) {
-				return mk("fewer-than-n", fmt.Sprintf("op %d %q: %d replicators, configured %d, %d sharders", i, op, len(got), n, len(sorted)))
+				return mk("fewer-than-n", fmt.Sprintf("op %d %.100q: %d distinct replicators, configured %d, %d sharders", i, op, len(got), n, len(sorted)))
 			}
 			for k := range sorted {
 				if got[k] != inTop[k] {
-					return mk("set-not-top", fmt.Sprintf("op %d %q answered %q; scores %v, n=%d: node %d listed=%v, in top=%v", i, op, outs[i], score, n, k, got[k], inTop[k]))
+					return mk("set-not-top", fmt.Sprintf("op %d %.100q: %d members, n=%d, cut-off score %d: member %d (score %d) listed=%v, in top=%v", i, op, len(sorted), n, cut, k, score[k], got[k], inTop[k]))
 				}
 			}
 			if (g[0] == "true") != want {
-				return mk("isbs-vs-set", fmt.Sprintf("op %d %q answered %q but membership of the asked node is %v", i, op, outs[i], want))
+				return mk("isbs-vs-set", fmt.Sprintf("op %d %.100q answered %q but membership of the asked node is %v", i, op, g[0], want))
 			}
 		}
 	}
-	// order independence across segments
+	// order / history independence across segments
 	for a := 0; a < len(segs); a++ {
 		for b := a + 1; b < len(segs); b++ {
 			x, y := segs[a], segs[b]
@@ -492,12 +723,24 @@ func oracle(ops, outs []string) *corr.Violation {
 			if !same {
 				continue
 			}
+			if x.side || y.side {
+				statShared++
+			}
 			for q, ans := range x.answers {
-				if _, ok := y.answers[q]; ok {
-					statOrderCmp++
+				ans2, ok := y.answers[q]
+				if !ok {
+					continue
 				}
-				if ans2, ok := y.answers[q]; ok && ans != ans2 {
-					return mk("order-dependent", fmt.Sprintf("the same sharder set added in another order answers %q with %q instead of %q", q, ans2, ans))
+				k := strings.Fields(q)[0]
+				if (k == "pos" || k == "scores") && (x.side || y.side) {
+					continue // SetIndex of shared objects (and the order of equal scores) may be another pool's
+				}
+				if k == "repl" || k == "intopn" {
+					ans, ans2 = setOf(ans), setOf(ans2)
+				}
+				statOrderCmp++
+				if ans != ans2 {
+					return mk("order-dependent", fmt.Sprintf("the same sharder set built by another AddNode history answers %.100q with %.200q instead of %.200q", q, ans2, ans))
 				}
 			}
 		}
@@ -507,21 +750,23 @@ func oracle(ops, outs []string) *corr.Violation {
 
 func main() {
 	a := "0000000000000000000000000000000000000000000000000000000000000000"
-	_ = a
 	corr.Main(corr.Prop{
 		ID: "C42", Model: "C42", Gen: gen, Impl: impl, Oracle: oracle,
 		Cases: func(th bool) int {
 			if th {
-				return 12000
+				return 9000
 			}
 			return 1200
 		},
 		Extra: func() map[string]interface{} {
-			return map[string]interface{}{"replicator_sets_checked": statSets, "sets_with_tie_at_cutoff": statTies, "answers_compared_across_insertion_orders": statOrderCmp}
+			return map[string]interface{}{"replicator_sets_checked": statSets, "sets_with_tie_at_cutoff": statTies,
+				"sets_checked_in_pools_over_256": statBig, "segment_pairs_with_shared_node_objects": statShared,
+				"answers_compared_across_insertion_orders": statOrderCmp}
 		},
 		Fixed: [][]string{
 			{"new 2", "pos", "scores 00", "isbs 00 " + a, "repl 00 " + a, "intop 00 " + a + " 0", "intopn 00 " + a + " 0", "intop 00 " + a + " -1"},
 			{"new 0", "isbs zz " + a, "repl zz " + a},
+			{"new 9223372036854775807", "isbs 00 " + a, "new -9223372036854775808", "isbs 00 " + a, "repl 00 " + a, "intop 00 " + a + " 9223372036854775807", "intopn 00 " + a + " -9223372036854775808"},
 		},
 	})
 }
